@@ -262,6 +262,23 @@ pub mod vrt {
         }
     }
 
+    /// Model of `core::str::count::count_chars` (what `Chars::count` calls): number of bytes that are not UTF-8
+    /// continuation bytes.  Semantically equal to the std function on every &str; used as a Kani stub because
+    /// std's word-at-a-time implementation exhausts CBMC (a change to /repo that merely *uses* `chars().count()`
+    /// must not make a harness undecided).
+    pub fn count_chars_model(s: &str) -> usize {
+        let b = s.as_bytes();
+        let mut n = 0;
+        let mut i = 0;
+        while i < b.len() {
+            if (b[i] & 0xC0) != 0x80 {
+                n += 1;
+            }
+            i += 1;
+        }
+        n
+    }
+
     #[inline]
     pub fn is_boundary(b: &[u8], p: usize) -> bool {
         p == b.len() || (p < b.len() && (b[p] & 0xC0) != 0x80)
